@@ -309,6 +309,68 @@ class FnAnalysis:
                 return self.simp(a, facts)
             if ("var", r, "Err") in facts:
                 return self.simp(b, facts)
+        if t.has_tree() and facts:
+            t = self.resolve_trees(t, facts)
+        return t
+
+    # ------------------------------------------------------------------ decision nodes
+    def vs_for(self, x, v):
+        if v in ("Some", "None"):
+            return ["None", "Some"]
+        if v in ("Ok", "Err"):
+            return ["Ok", "Err"]
+        if v in ("Continue", "Break"):
+            return ["Continue", "Break"]
+        ty = self.type_hint(x)
+        return self.variants_of(ty) if ty else None
+
+    def var_fact(self, x, v):
+        """the fact that stands for `x is variant v` (facts are kept on the base of x: see norm_var); or True / False when known statically"""
+        vs = self.vs_for(x, v)
+        if not vs or v not in vs:
+            return ("var", x, v)
+        base, names = self.norm_var(x, vs)
+        if base is None:
+            return vs[names] == v
+        n = names[vs.index(v)]
+        if n.startswith("!"):
+            return False
+        return ("var", base, n)
+
+    def variant_known(self, x, v, facts):
+        """True / False / None: is x variant v under facts"""
+        f = self.var_fact(x, v)
+        if f is True or f is False:
+            return f
+        if f in facts:
+            return True
+        _, base, n = f
+        if ("notvar", base, n) in facts:
+            return False
+        for g in facts:
+            if g[0] == "var" and g[1] is base and g[2] != n:
+                return False
+        return None
+
+    def resolve_trees(self, t, facts):
+        from .terms import rebuild
+        for _ in range(12):
+            mp = {}
+            for x in t.subterms():
+                if x.op == "mterm":
+                    for v, a in x.args[1]:
+                        if self.variant_known(x.args[0], v, facts) is True:
+                            mp[x] = a
+                            break
+                elif x.op == "ite":
+                    tv = self.truth(facts, x.args[0])
+                    if tv is not None:
+                        mp[x] = x.args[1] if tv else x.args[2]
+            if not mp:
+                break
+            t = rebuild(t, mp)
+            if not t.has_tree():
+                break
         return t
 
     # ------------------------------------------------------------------ operand evaluation
@@ -414,6 +476,20 @@ class FnAnalysis:
                 if f == "result::Result::ok" and set(names) == {"Some", "None"}:
                     names = ["Ok" if n == "Some" else "Err" for n in names]
                     x = a[0]
+                    continue
+            if x.op == "mterm":
+                # a case split on the variant of X whose arms are distinct variants: "x is variant n" <=> "X is variant v"
+                X, arms = x.args
+                back = {}
+                ok = True
+                for v, a_ in arms:
+                    if a_.op == "agg" and a_.args[0] == "adt" and a_.args[3] is not None and a_.args[3] not in back:
+                        back[a_.args[3]] = v
+                    else:
+                        ok = False
+                if ok and all(n in back or n.startswith("!") for n in names):
+                    names = [back.get(n, "!" + n) for n in names]
+                    x = X
                     continue
             return x, names
 
@@ -945,7 +1021,117 @@ class FnAnalysis:
                     if y.args[0] == ph.args[0] and p in ops:
                         nf.add(("sel", y, ops[p]))
                 work.append((rebuild(t, mp), env if env is not None else est.env, frozenset(nf)))
+        return self.expand_trees(out, limit)
+
+    def expand_trees(self, leaves, limit=4096):
+        """Split every outcome whose value or facts still contain a decision node (the inlined summary of a callee / combinator)
+        into one outcome per case, adding the case's condition to the facts and dropping contradictory cases."""
+        from .terms import rebuild, _skey_of
+        out = []
+        work = list(reversed(leaves))
+        n = 0
+        while work:
+            t, st = work.pop()
+            n += 1
+            if n > limit * 4:
+                return None
+            facts = st.facts
+            t = self.simp(t, facts)
+            nodes = {}
+            for x in self._tree_nodes(t, facts):
+                nodes[x] = True
+            if not nodes:
+                out.append((t, State(st.env, facts)))
+                continue
+            # outermost-first, deterministic: a node that is not inside another candidate's scrutinee / condition
+            cand = sorted(nodes, key=lambda x: repr(_skey_of(x)))
+            node = None
+            for x in cand:
+                if not any(y is not x and y.args[0].mentions(x) for y in cand):
+                    node = x
+                    break
+            node = node or cand[0]
+            cases = []
+            if node.op == "mterm":
+                for v, a in node.args[1]:
+                    k = self.variant_known(node.args[0], v, facts)
+                    if k is False:
+                        continue
+                    f = self.var_fact(node.args[0], v)
+                    cases.append((a, None if f is True else f))
+            else:
+                c = node.args[0]
+                tv = self.truth(facts, c)
+                if tv is not False:
+                    cases.append((node.args[1], ("true", c)))
+                if tv is not True:
+                    cases.append((node.args[2], ("false", c)))
+            for arm, fact in reversed(cases):
+                nf = set(facts)
+                if fact is not None:
+                    if fact[0] in ("true", "false"):
+                        nf = set(self.assume_bool(frozenset(nf), fact[1], fact[0] == "true"))
+                    else:
+                        nf.add(fact)
+                mp = {node: arm}
+                nf2 = self._rewrite_facts(nf, mp)
+                if nf2 is None:
+                    continue
+                work.append((rebuild(t, mp), State(st.env, nf2)))
         return out
+
+    def _tree_nodes(self, t, facts):
+        if t.has_tree():
+            for x in t.subterms():
+                if x.op in ("mterm", "ite"):
+                    yield x
+        for f in facts:
+            if f[0] == "sel":
+                continue
+            for y in f[1:]:
+                if isinstance(y, Term) and y.has_tree():
+                    for x in y.subterms():
+                        if x.op in ("mterm", "ite"):
+                            yield x
+
+    def _rewrite_facts(self, facts, mp):
+        """facts with the sub-terms in mp replaced; var facts are re-based; None when a fact became false"""
+        from .terms import rebuild
+        out = set()
+        for f in facts:
+            if not any(isinstance(y, Term) and y.has_tree() for y in f[1:]):
+                out.add(f)
+                continue
+            g = (f[0],) + tuple(rebuild(y, mp) if isinstance(y, Term) else y for y in f[1:])
+            if g[0] in ("var", "notvar"):
+                k = self.var_fact(g[1], g[2])
+                if k is True or k is False:
+                    if k == (g[0] == "notvar"):
+                        return None
+                    continue
+                g = (g[0],) + k[1:]
+                # contradiction with what is already known
+                if g[0] == "var":
+                    for h in out | set(facts):
+                        if h[0] == "var" and h[1] is g[1] and h[2] != g[2] and not h[1].has_tree():
+                            return None
+            elif g[0] in ("true", "false") and g[1].op == "const":
+                if bool(g[1].args[1]) != (g[0] == "true"):
+                    return None
+                continue
+            out.add(g)
+        # pairwise contradictions among var facts
+        seen = {}
+        for g in out:
+            if g[0] == "var":
+                if seen.setdefault(g[1], g[2]) != g[2]:
+                    return None
+        for g in out:
+            if g[0] == "notvar" and seen.get(g[1]) == g[2]:
+                return None
+            if g[0] == "true" and ("false", g[1]) in out:
+                return None
+        return frozenset(out)
 
     def paths(self, limit=512):
         """Enumerate the acyclic entry-to-return paths of a loop-free body, re-running the transfer functions along each
@@ -1010,6 +1196,59 @@ class Program:
         self._an[key] = an
         return an
 
+    # ---- decision-tree summaries ---------------------------------------------------------------------------------
+    def known_name(self, lf):
+        """is this in-crate function part of the vocabulary the rules speak in (then it is kept as a named call)?"""
+        from .vocab import is_known
+        return is_known(lf["qual"])
+
+    def closed_tree(self, lf, items=None):
+        """The value a pure in-crate function returns, as a closed term over its parameters in which the function's
+        branching is explicit (mterm / ite nodes over conditions that only mention the parameters); None if there is none.
+        Functions the rules know by name keep their name unless the tree is a single variant-determined split (the shape of a
+        combinator such as ok_or / ok / map_err written out as a match)."""
+        key = ("tree", lf["id"])
+        if items is None and key in self._hints:
+            return self._hints[key]
+        res = None
+        if items is None:
+            sub = self.analysis(lf)
+            if sub is not None and not sub.loops:
+                items = self.leaf_items(sub, lambda t, st: t)
+        if items:
+            res = build_tree(items)
+        if res is not None and self.known_name(lf):
+            simple = (res.op == "mterm" and not res.args[0].has_tree() and all(v in ("Some", "None", "Ok", "Err") for v, _ in res.args[1])
+                      and all(a.op == "agg" and a.args[1] in ("option::Option", "result::Result") and not a.has_tree() for _, a in res.args[1]))
+            if not simple:
+                res = None
+        if key[1] is not None:
+            self._hints[key] = res
+        return res
+
+    def leaf_items(self, sub, value_of, limit=24):
+        """[(closed value term, {atom: value})] for the outcomes of a loop-free body; None when something is not closed"""
+        ps = sub.paths(limit=limit * 2) if not sub.loops else None
+        leaves = [(t, st) for t, st, _ in ps] if ps is not None else sub.ret_leaves()
+        if not leaves or len(leaves) > limit * 2:
+            return None
+        leaves = sub.expand_trees(leaves)
+        if not leaves:
+            return None
+        items = []
+        for t, st in leaves:
+            v = value_of(sub.simp(t, st.facts), st)
+            if v is None or not self._closed(v) or v.op == "never":
+                return None
+            atoms = {}
+            for f in st.facts:
+                if f[0] == "var" and isinstance(f[1], Term) and self._closed(f[1]) and not f[2].startswith("!"):
+                    atoms[("var", f[1])] = f[2]
+                elif f[0] in ("true", "false") and self._closed(f[1]):
+                    atoms[("bool", f[1])] = f[0] == "true"
+            items.append((v, atoms))
+        return items
+
     def local_fn(self, callee):
         rid = callee.get("resolved_id")
         if rid and rid in self.facts.by_id:
@@ -1060,6 +1299,11 @@ class Program:
                 rt = sub.ret_term()
                 if rt is not None and self._closed(rt):
                     inst = self.subst(an, st, rt, args)
+                    if inst is not None:
+                        return inst
+                tree = self.closed_tree(lf)
+                if tree is not None:
+                    inst = self.subst(an, st, tree, args)
                     if inst is not None:
                         return inst
             return T.call(lf["qual"], generics, [self._stabilise(an, st, a) for a in args])
@@ -1172,6 +1416,10 @@ class Program:
                 r = T.bin(a[0], go(a[1]), go(a[2]), a[3])
             elif op == "refval":
                 r = T.refval(go(a[0]))
+            elif op == "mterm":
+                r = T.mterm(go(a[0]), tuple((v, go(y)) for v, y in a[1]))
+            elif op == "ite":
+                r = T.ite(go(a[0]), go(a[1]), go(a[2]))
             elif op == "unsize":
                 r = Term("unsize", go(a[0]), a[1])
             elif op == "residual":
@@ -1226,8 +1474,7 @@ class Program:
                 inner = x.args[0]
                 g0 = generics[0] if generics else ""
                 if g0.startswith("result::Result"):
-                    return T.agg("adt", "result::Result", 1, "Err",
-                                 [T.call("convert::From::from", (), [T.payload(inner, "Err")])])
+                    return T.agg("adt", "result::Result", 1, "Err", [self.convert_err(an, st, callee, T.payload(inner, "Err"))])
                 if g0.startswith("option::Option"):
                     return T.agg("adt", "option::Option", 0, "None", [])
         if name == "clone::Clone::clone" and nq.startswith("clone::impls::"):
@@ -1244,10 +1491,73 @@ class Program:
             return self._val(an, st, args[0])
         return None
 
+    def convert_err(self, an, st, callee, e):
+        """the error value `?` returns: From::from(e) - the identity when source and target type agree, the body of the
+        in-crate From impl when there is one (so `?`, `map_err(Target::from)` and a spelled-out `Err(Target::Variant(e))` agree)"""
+        rg = [norm(x) for x in (callee.get("resolved_generics") or [])]
+        if len(rg) == 3:
+            src, dst = rg[1], rg[2]
+            if src == dst:
+                return e
+            lf = self.from_impl(dst, src)
+            if lf is not None:
+                sub = self.analysis(lf)
+                rt = sub.ret_term() if sub is not None else None
+                if rt is not None and self._closed(rt):
+                    inst = self.subst(an, st, rt, [e])
+                    if inst is not None:
+                        return inst
+        return T.call("convert::From::from", (), [e])
+
+    def from_impl(self, dst, src):
+        idx = self._hints.get("from_impls")
+        if idx is None:
+            idx = {}
+            import re as _re
+            for fn in self.facts.all_fns():
+                m = _re.match(r"^<(.+) as convert::From<(.+)>>::from$", norm(fn["qual"]))
+                if m:
+                    idx[(m.group(1), m.group(2))] = fn
+            self._hints["from_impls"] = idx
+        return idx.get((dst, src))
+
     def _val(self, an, st, p):
         if p.op == "ref":
             return an.read(st, (p.args[0], p.args[1]))
         return T.deref(p)
+
+
+def build_tree(items):
+    """items: [(term, {atom: value})] -> decision tree term, or None when the outcomes are not separated by total atoms"""
+    from .terms import _skey_of
+    ts = []
+    for t, _ in items:
+        if t not in ts:
+            ts.append(t)
+    if len(ts) == 1:
+        return ts[0]
+    common = None
+    for _, a in items:
+        common = set(a) if common is None else common & set(a)
+    cands = sorted((k for k in (common or ()) if len({a[k] for _, a in items}) > 1), key=lambda k: (k[0] != "var", repr(_skey_of(k[1]))))
+    for k in cands:
+        groups = {}
+        for it in items:
+            groups.setdefault(it[1][k], []).append(it)
+        subs = {}
+        ok = True
+        for val, grp in groups.items():
+            sub = build_tree(grp)
+            if sub is None:
+                ok = False
+                break
+            subs[val] = sub
+        if not ok:
+            continue
+        if k[0] == "var":
+            return T.mterm(k[1], tuple(subs.items()))
+        return T.ite(k[1], subs.get(True), subs.get(False))
+    return None
 
 
 _PROGS = {}
